@@ -30,6 +30,7 @@ def plan(tier, seed):
     for i in range(npl):
         shards.append({'name': 'planted-%d' % i, 'fn': 'shard_planted', 'args': {'part': i, 'parts': npl}})
     shards.append({'name': 'wide-codes', 'fn': 'shard_wide', 'args': {}})
+    shards.append({'name': 'numba-unavailable', 'fn': 'shard_numba_missing', 'args': {}})
     for i in range(2 if tier == 'quick' else 6):
         shards.append({'name': 'planted-pipeline-%d' % i, 'fn': 'shard_planted_pipeline', 'args': {'part': i}})
     return shards
@@ -128,6 +129,46 @@ def shard_wide(sh):
     target = np.where(nprng.random(n) < 0.2, 1 - (two == 10), (two == 10)).astype(np.int32)
     observe(sh, est, two, target, 'codes-above-2^16', sample=True)
     observe(sh, est, (two + 3 * 65536).astype(np.int32), target, 'codes-above-2^16')
+
+
+def shard_numba_missing(sh):
+    """Fault injection: the numba import fails. The corrected heuristic may then fail loudly, but it must not silently return some other
+    estimator's value under its name."""
+    import sys
+    import types
+    import numpy as np
+    sys.modules['numba'] = None                      # 'import numba' now raises ImportError in this process
+    for m in [k for k in sys.modules if k.startswith('outrank')]:
+        del sys.modules[m]
+    import logging
+    logging.disable(logging.CRITICAL)
+    import io
+    import contextlib
+    with contextlib.redirect_stderr(io.StringIO()):
+        from outrank.algorithms import importance_estimator as ie
+    if getattr(ie, 'numba_available', None) is not False:
+        sh.inconclusive_note('numba import fault was not effective')
+        return
+    r = sh.nprng('nomba')
+    loud = silent_ok = 0
+    for t in range(20):
+        n = 2000
+        target = r.integers(0, 2, n).astype(np.int32)
+        feats = {'identifier': r.permutation(n).astype(np.int32), 'noise-1000': r.integers(0, 1000, n).astype(np.int32),
+                 'signal': np.where(r.random(n) < 0.15, 1 - target, target).astype(np.int32)}
+        for name, f in feats.items():
+            args = types.SimpleNamespace(heuristic='MI-numba-randomized', mi_stratified_sampling_ratio=1.0)
+            try:
+                got = float(ie.conduct_feature_ranking(f, target, args))
+            except Exception:
+                loud += 1
+                sh.ok('corrected-model')
+                continue
+            model = oracles.corrected_model(f, target)
+            silent_ok += 1
+            sh.check('corrected-model', oracles.close32(got, model), 'numba-missing:silently-returns-another-score', lambda: {'feature': name, 'got': got, 'model_corrected': model, 'plain_mi': oracles.plugin_mi(f, target)})
+    sh.notes['numba_missing'] = {'loud_failures': loud, 'values_returned': silent_ok}
+    sh.case(('numba-missing',), True, 'fault-injection/numba-import-fails', sample={'loud_failures': loud, 'values_returned': silent_ok})
 
 
 def shard_planted(sh, part, parts):
